@@ -160,15 +160,21 @@ impl Exec {
         out + rests <= PMAX as u64 && m.trade_vol as u64 + trades <= PMAX as u64
     }
 
-    fn price_ok_create(&self, a: usize, price: Option<u32>, place: bool) -> bool {
+    /// a limit order on an end of the price domain that is an ordinary resting order: a buy at 0 (on every grid) or a sell
+    /// at 2^32-1 (where the tick size divides it). The mirrored cases (sell at 0, buy at 2^32-1) are market orders.
+    fn end_rests(&self, a: usize, bid: bool, p: u32) -> bool {
+        (bid && p == 0) || (!bid && p == PMAX && PMAX % self.tick_of(a) == 0)
+    }
+
+    fn price_ok_create(&self, a: usize, bid: bool, price: Option<u32>, place: bool) -> bool {
         match price {
             None => true,
             Some(p) => {
                 if p == 0 || p == PMAX {
-                    // the two ends of the price domain are not valid limit prices; as *creation requests* they are
-                    // part of C12's "arbitrary prices" (0 is a multiple of every tick size, 2^32-1 of some): created
-                    // only, never placed (see `place_valid`)
-                    return self.cfg.allow_offgrid_create && !place;
+                    // the two ends of the price domain are outside the valid limit prices of C01..C11; as *creation
+                    // requests* they are part of C12's "arbitrary prices" (0 is a multiple of every tick size, 2^32-1 of
+                    // some). They are placed only where they are ordinary resting orders (see `end_rests`, `place_valid`)
+                    return self.cfg.allow_offgrid_create && (!place || self.end_rests(a, bid, p));
                 }
                 p % self.tick_of(a) == 0 || self.cfg.allow_offgrid_create
             }
@@ -205,7 +211,7 @@ impl Exec {
             }
             Op::Create { a, bid, vol, trader, price } | Op::CreatePlace { a, bid, vol, trader, price } => {
                 let place = matches!(op, Op::CreatePlace { .. });
-                if *a >= assets || *vol == 0 || !self.price_ok_create(*a, *price, place) {
+                if *a >= assets || *vol == 0 || !self.price_ok_create(*a, *bid, *price, place) {
                     return None;
                 }
                 let ok = if place && price.map(|p| p % self.tick_of(*a) == 0).unwrap_or(true) { self.vol_ok_placed(*a, *bid, *vol, *price) } else { self.vol_ok(*a, *bid, *vol, None) };
@@ -273,7 +279,7 @@ impl Exec {
         {
             // a limit order created on an end of the price domain (C12 creation requests only) is never placed
             let o = &self.models[a].orders[id];
-            if !o.is_market && (o.o.price == 0 || o.o.price == PMAX) {
+            if !o.is_market && (o.o.price == 0 || o.o.price == PMAX) && !(self.cfg.allow_offgrid_create && self.end_rests(a, o.o.bid, o.o.price)) {
                 return None;
             }
         }
